@@ -32,7 +32,7 @@ float BoxMuller::evaluate ()
     v1 = 2.0 * drand48() - 1.0;
     v2 = 2.0 * drand48() - 1.0;
     w = v1 * v1 + v2 * v2;
-  } while ( w >= 1.0 );
+  } while ( w >= 1.0 || w == 0.0 );
   
   w = sqrt( (-2.0 * log( w ) ) / w );
 
